@@ -1,6 +1,6 @@
 #!/venv/bin/python
 """Re-evaluate every /verif/seeded/<id>/patch.diff against all 20 quick checks (copy of /repo/aiocoap + patch,
-no tests, no demo) and rewrite `checks_now` in each meta.json.  usage: refresh_seeded_meta.py [--jobs N]"""
+no tests, no demo) and rewrite `checks_now` in each meta.json.  usage: refresh_seeded_meta.py [--jobs N] [--match SUBSTRING]"""
 import json, os, shutil, subprocess, sys, tempfile
 from concurrent.futures import ThreadPoolExecutor
 VERIF = os.path.dirname(os.path.dirname(os.path.abspath(__file__)))
@@ -32,7 +32,8 @@ def one(sid):
 
 def main():
     jobs = int(sys.argv[sys.argv.index("--jobs") + 1]) if "--jobs" in sys.argv else 14
-    sids = sorted(s for s in os.listdir(SRC) if os.path.isdir(os.path.join(SRC, s)))
+    only = sys.argv[sys.argv.index("--match") + 1] if "--match" in sys.argv else ""   # e.g. --match -r6-
+    sids = sorted(s for s in os.listdir(SRC) if os.path.isdir(os.path.join(SRC, s)) and only in s)
     with ThreadPoolExecutor(max_workers=jobs) as ex:
         results = list(ex.map(one, sids))
     own = 0
